@@ -35,6 +35,11 @@ func (w *World) materialise(ka *keyAllocator) error {
 	nb, na := Epoch.Add(-365*24*time.Hour), Epoch.Add(20*365*24*time.Hour)
 	for pos := n - 1; pos >= 0; pos-- {
 		cp := w.Certs[pos]
+		if w.CloneOf != nil {
+			// a later validation of the same chain: same certificates
+			cp.C = w.CloneOf.Certs[pos].C
+			continue
+		}
 		spec := &CertSpec{
 			CN: fmt.Sprintf("w%d-cert%d", w.ID, pos), Key: ka.get(cp.KeyKind), Serial: cp.Serial,
 			NotBefore: nb, NotAfter: na, MaxPathLen: -1,
@@ -976,6 +981,32 @@ func (sc *RevScenario) setup(obs *RevObs, altSeed uint32, nt *Net, ka *keyAlloca
 	return &revInfra{nt: nt, ocspClient: ocspClient, crlClient: crlClient, rf: rf, cache: cache, validators: validators, pv: pv, ka: ka}
 }
 
+// rebuildValidators models a process restart: a new HTTPFetcher (same cache,
+// same recording decorator) and new validators.
+func (sc *RevScenario) rebuildValidators(inf *revInfra) map[purpose.Purpose]revocation.Validator {
+	if sc.Fetcher == FetchStub {
+		return nil
+	}
+	hf, err := corecrl.NewHTTPFetcher(inf.crlClient)
+	if err != nil {
+		return nil
+	}
+	if inf.cache != nil {
+		hf.Cache = inf.cache
+		hf.DiscardCacheError = sc.Discard
+	}
+	inf.rf.inner = hf
+	out := map[purpose.Purpose]revocation.Validator{}
+	for _, p := range []purpose.Purpose{purpose.CodeSigning, purpose.Timestamping} {
+		v, err := revocation.NewWithOptions(revocation.Options{OCSPHTTPClient: inf.ocspClient, CRLFetcher: inf.rf, CertChainPurpose: p})
+		if err != nil {
+			return nil
+		}
+		out[p] = v
+	}
+	return out
+}
+
 // heal makes every source of one certificate of world 0 honest and returns a
 // function that restores the drawn plan.
 func (sc *RevScenario) heal(pos int) (restore func()) {
@@ -1112,13 +1143,39 @@ func (sc *RevScenario) execInBubble(obs *RevObs, altSeed uint32, onlyWorld int, 
 			}
 			co.TReturn, co.Returned = time.Now(), true
 		}
-		if len(jobs) == 1 {
+		switch {
+		case sc.Sequential:
+			if i < len(sc.Gaps) && sc.Gaps[i] > 0 {
+				time.Sleep(sc.Gaps[i])
+			}
+			if i < len(sc.Restarts) && sc.Restarts[i] {
+				// process restart: new fetcher and validators, the cache survives
+				if nv := sc.rebuildValidators(inf); nv != nil {
+					validators = nv
+				}
+			}
+			if inf.cache != nil {
+				for _, cp := range w.Certs {
+					for _, s := range cp.CRL {
+						var gp, sp []int
+						if s.CacheGetEr {
+							gp = []int{1}
+						}
+						if s.CacheSetEr {
+							sp = []int{1}
+						}
+						inf.cache.Plan(s.URL, gp, sp)
+					}
+				}
+			}
 			call()
-		} else {
+		case len(jobs) == 1:
+			call()
+		default:
 			go func() { call(); done <- struct{}{} }()
 		}
 	}
-	if len(jobs) > 1 {
+	if len(jobs) > 1 && !sc.Sequential {
 		for range jobs {
 			<-done
 		}
